@@ -293,9 +293,10 @@ theorem flush_prints_all (r : RState) (hbuf : r.buf ≠ []) (hlr : r.lastRender 
   simp only [List.mem_append]
   exact Or.inl (Or.inr (paintOps_prints r hll _ _ _ _ _ l hl))
 
-/-- every text the paint loop prints is a line cut at the width -/
+/-- every text the paint loop prints is a line cut at the width: it takes at most `width` cells
+(its escape sequences, which take none, are all kept) -/
 theorem paintLineOps_text_le (r : RState) (hw : 0 < r.width) (fq sh : Bool) (n i : Nat) (l : Line)
-    (x : Bytes) (hx : TermOp.text x ∈ paintLineOps r fq sh n i l) : x.length ≤ r.width := by
+    (x : Bytes) (hx : TermOp.text x ∈ paintLineOps r fq sh n i l) : lineWidth x ≤ r.width := by
   cases hs : canSkip r fq sh n i l with
   | true =>
     rw [paintLineOps_skip r fq sh n i l hs] at hx
@@ -307,13 +308,13 @@ theorem paintLineOps_text_le (r : RState) (hw : 0 < r.width) (fq sh : Bool) (n i
     · split at hx <;> simp at hx
     · split at hx <;> simp at hx
     · simp only [List.mem_cons, List.mem_nil_iff, or_false, TermOp.text.injEq] at hx
-      rw [hx]; exact truncateLine_length_le _ _
+      rw [hx]; exact truncateLine_width_le _ _
     · split at hx <;> simp at hx
     · split at hx <;> simp at hx
 
 theorem paintOps_text_le (r : RState) (hw : 0 < r.width) (fq sh : Bool) (n : Nat) :
     ∀ (ls : List Line) (i : Nat) (x : Bytes), TermOp.text x ∈ paintOps r fq sh n i ls →
-      x.length ≤ r.width := by
+      lineWidth x ≤ r.width := by
   intro ls
   induction ls with
   | nil => intro i x hx; simp [paintOps] at hx
@@ -324,10 +325,10 @@ theorem paintOps_text_le (r : RState) (hw : 0 < r.width) (fq sh : Bool) (n : Nat
     · exact paintLineOps_text_le r hw fq sh n i l x hx
     · exact ih (i + 1) x hx
 
-/-- with no printed lines queued, every text a flush writes is at most `width` bytes: no line of
-a view can reach past the last column -/
+/-- with no printed lines queued, every text a flush writes takes at most `width` cells: no line
+of a view can reach past the last column -/
 theorem flush_text_le (r : RState) (hw : 0 < r.width) (hq : r.queued = []) (x : Bytes)
-    (hx : TermOp.text x ∈ (flush r).2) : x.length ≤ r.width := by
+    (hx : TermOp.text x ∈ (flush r).2) : lineWidth x ≤ r.width := by
   unfold flush at hx
   split at hx
   · simp at hx
